@@ -134,3 +134,10 @@ P['C12'] = dict(
     assumptions=_pub_assume[:2] + ['timers fire in deadline order (virtual clock); network events take no time'],
     jobs=[dict(name='keepalive', tu='harness/w_ka.cpp', entry='h_keepalive', engine='B', clock=True, defs_quick={'VK_KMAX': 20}, defs_thorough={'VK_KMAX': 60},
                reach=['no-keepalive', 'first-ping', 'timeout-reconnect', 'second-ping', 'timeout-after-traffic', 'new-keepalive'], samples=10)])
+
+P['C13'] = dict(
+    level_text='On the real mqtt_client: every sequence (up to the step bound) of subscriptions answered with a symbolic admissible SUBACK code (granted 0..2 or refused), connection losses followed by a reconnect with Session Present 0 or 1, and inbound messages, with async_receive re-armed continuously. Monitor: the number of session_expired entries delivered equals the number of reconnects with Session Present 0 that were preceded, since the start or the previous report, by a granted subscription; none otherwise; and each report precedes every message the broker sent on the connection that caused it.',
+    level_note='Bounds: 2 subscriptions, 3 reconnects, 2 messages, 5 (quick) / 7 (thorough) steps.',
+    assumptions=_pub_assume[:2],
+    jobs=[dict(name='session_expired_once', tu='harness/w_sess.cpp', entry='h_session', engine='B', clock=True, defs_quick={'VK_STEPS': 5}, defs_thorough={'VK_STEPS': 7},
+               reach=['reported', 'subscribed', 'subscription-refused', 'session-lost-with-subscription', 'session-lost-without-subscription', 'message'], samples=10)])
